@@ -142,11 +142,17 @@ def defset(draw, max_items=8, keywords=False, array_typedefs=True):
                 val = draw(st.sampled_from(["{r} + 1", "({r} * 2)", "{r} | 0x10", "{r}"])).format(r=ref)
                 deps = {ref}
                 v = None
+            elif draw(st.integers(0, 5)) == 0:
+                # string / bytes / character literals holding comment markers: the comment stripper leaves them alone
+                val = draw(st.sampled_from(['"/*"', '"a//b"', "'/'", 'b"a//b"', '"*/"', '"/* x */ y"', '"it\'s // fine"']))
+                deps = set()
+                v = None
             else:
                 v = draw(st.integers(0, 6))
                 val = draw(st.sampled_from(["{v}", "0x{v:x}", "{v}u", "({v})"])).format(v=v)
                 deps = set()
-            env["defines"][name] = True
+            if not (val[:1] in "\"'b" and not val[:1].isdigit() and (val.startswith(("\"", "'", "b\"")))):
+                env["defines"][name] = True  # (literal-valued constants are not used in later expressions)
             items.append(Item("define", name, f"#define {name} {val}\n", deps))
         elif k == "enum":
             name = f"E{counter}"
@@ -251,6 +257,7 @@ TRIVIA = [
     " ", "  ", "\t", "\n", " \n  ", "\n\n",
     "/* c */", "/**/", "/* struct { uint8 x; }; */", "/* a ; } { */", "/* multi\n line */", "/* it's \"quoted\" */", "/* // nested */", "/***/", "/* * ** */",
     "// line comment\n", "// uint16 hidden;\n", "//\n", "// it's } ; {\n", " // trailing */ comment\n",
+    "// see /* below\n", "/*/ x */", "\f", "\v", "/* // */", "// /* not opened\n",
 ]
 
 
@@ -265,6 +272,27 @@ def join(toks, inserts=None, crlf=False):
     if crlf:
         text = text.replace("\r\n", "\n").replace("\n", "\r\n")
     return text
+
+
+def join_compact(toks):
+    """The same tokens with every separator dropped that C does not need: a blank stays only between two word characters,
+    after 'enum' / 'flag' (the library's grammar wants it there) and around '#define' lines."""
+    out = []
+    for i, (t, sep) in enumerate(toks):
+        out.append(t)
+        if i + 1 == len(toks):
+            out.append(sep)
+            break
+        nxt = toks[i + 1][0]
+        if t.startswith("#define") or nxt.startswith("#define"):
+            out.append(sep if "\n" in sep or t.endswith("\n") else "\n")
+        elif t in ("enum", "flag"):
+            out.append(" ")
+        elif (t[-1].isalnum() or t[-1] == "_") and (nxt[0].isalnum() or nxt[0] == "_"):
+            out.append(" ")
+        else:
+            out.append("")
+    return "".join(out)
 
 
 def allowed_boundaries(toks):
